@@ -385,8 +385,15 @@ def write_evidence(ctx, build, coverage, violations, assumptions=None):
         "wall_s": round(time.time() - ctx.t0, 2),
         "violations": violations,
     }
-    (VERIF / "evidence").mkdir(exist_ok=True)
-    (VERIF / "evidence" / f"{ctx.prop}.json").write_text(json.dumps(ev, indent=1, default=str))
+    # /verif/evidence describes /repo only: a run against another tree (VERIF_REPO=<scratch worktree>, used to evaluate seeded
+    # changes) records under build/ (git-ignored) so that it can never be mistaken for, or committed as, evidence about /repo
+    if os.path.realpath(str(ctx.repo)) == "/repo":
+        edir = VERIF / "evidence"
+    else:
+        edir = VERIF / "build" / ("evidence-" + re.sub(r"[^A-Za-z0-9]+", "_", str(ctx.repo)).strip("_"))
+        ev["repo"] = str(ctx.repo)
+    edir.mkdir(parents=True, exist_ok=True)
+    (edir / f"{ctx.prop}.json").write_text(json.dumps(ev, indent=1, default=str))
     return ev
 
 
